@@ -9,15 +9,6 @@ func VerifIncrementIV(inIV []byte, subsamplePatterns []SubSamplePattern, sampleL
 	return incrementIV(inIV, subsamplePatterns, sampleLen)
 }
 
-// VerifCbcsCrypt exposes cbcsCrypt (enc = true encrypts, false decrypts).
-func VerifCbcsCrypt(enc bool, data, key, iv []byte, nrInCryptBlock, nrInSkipBlock int) error {
-	dir := dirDec
-	if enc {
-		dir = dirEnc
-	}
-	return cbcsCrypt(dir, data, key, iv, nrInCryptBlock, nrInSkipBlock)
-}
-
 // VerifDecoderKeys lists the registered box types of both decoder tables.
 func VerifDecoderKeys() (reader, sliceReader []string) {
 	for k := range decoders {
